@@ -79,24 +79,39 @@ def outputs_digest():
     return h
 
 
+_LEADING_BLANKS = pycaption.CaptionSet({"en-US": pycaption.CaptionList([
+    pycaption.Caption(0, 10 ** 6, [pycaption.CaptionNode.create_text("   starts with blanks"), pycaption.CaptionNode.create_break(),
+                                   pycaption.CaptionNode.create_text(" \u00a0 and so does this")])])})
+
+
 def bounded(ctx, b):
     sets = all_sets()
     names = sorted(sets)
     other = sets["styled"]
+    # a first pass: what every writer makes of every set before the run has written anything else (outputs must not
+    # depend on what the PROCESS has written before - not even through state kept in a library the writers use)
+    first_pass = {(name, W.__name__, k): write_or_error(W(**opts), sets[name]) for name in names for W in WRITERS for k, opts in enumerate(OPTIONS[W])}
+    for W2 in WRITERS:
+        write_or_error(W2(), _LEADING_BLANKS)
     for name in names:
         cs = sets[name]
         for W in WRITERS:
             for k, opts in enumerate(OPTIONS[W]):
-                def one(W=W, opts=opts, cs=cs):
+                def one(W=W, opts=opts, cs=cs, key=(name, W.__name__, k)):
                     before = samples.dump(cs)
                     w = W(**opts)
                     out1 = write_or_error(w, cs)
+                    if out1 != first_pass[key]:
+                        return False, {"writer": W.__name__, "options": opts, "differs": ["from what a fresh writer wrote before other sets were written in this process"]}
                     if samples.dump(cs) != before:
                         return False, {"input_changed_by": W.__name__, "options": opts, "raised": out1.startswith("!")}
                     out2 = write_or_error(w, cs)
                     out3 = write_or_error(W(**opts), cs)
                     write_or_error(w, other)
                     write_or_error(w, sets["unbalanced"])
+                    write_or_error(w, _LEADING_BLANKS)
+                    for W2 in WRITERS:                      # (... and by fresh writers of every kind)
+                        write_or_error(W2(), _LEADING_BLANKS)
                     out4 = write_or_error(w, cs)
                     if not (out1 == out2 == out3 == out4):
                         which = [n for n, o in (("same object again", out2), ("fresh writer", out3), ("after other writes", out4)) if o != out1]
